@@ -44,6 +44,37 @@ def runs(tier):
 
 # ----------------------------------------------------------------------------- world + history generation
 
+_VOCAB = [None]
+
+
+def source_vocabulary():
+    """File names and header lines that occur as string literals in the code under test (read once per check run): a budget
+    folder may hold a user's file of such a name, beginning with such a line - written by an older release and edited since, or
+    simply named alike.  It is the user's file like any other."""
+    if _VOCAB[0] is None:
+        import glob
+        import re as _re
+        from .. import REPO
+        names, heads = set(), set()
+        import ast as _ast
+        for f in sorted(glob.glob(os.path.join(REPO, 'src', 'tally', '**', '*.py'), recursive=True)):
+            try:
+                tree = _ast.parse(open(f, 'r', encoding='utf-8', errors='replace').read())
+            except (OSError, SyntaxError, ValueError):
+                continue
+            for node in _ast.walk(tree):
+                if isinstance(node, _ast.Constant) and isinstance(node.value, str) and node.value:
+                    v = node.value
+                    if _re.fullmatch(r'[A-Za-z_.][A-Za-z0-9_.-]{1,30}\.(?:md|txt|log|json|toml|ini|cfg|lock|bak|yaml|yml)', v):
+                        names.add(v)
+                    first = v.lstrip('\ufeff').split('\n', 1)[0].rstrip()
+                    if _re.fullmatch(r'#{1,2} \S.{3,70}', first):
+                        heads.add(first)       # the first line of a text the program writes (a template, a generated header)
+        names.update(['AGENTS.md', 'CLAUDE.md', 'README.md', 'NOTES.txt', 'tally.log'])
+        _VOCAB[0] = (sorted(names), sorted(heads))
+    return _VOCAB[0]
+
+
 def gen_schedule(rng, i, tier):
     b = bm.gen_budget(rng, 'mixed')
     files = bm.render_budget(b, rng)
@@ -105,6 +136,22 @@ def gen_schedule(rng, i, tier):
                     files[sp_] = files[sp_].rstrip('\r\n') + eol_ + '%s: %s' % (key_, named) + eol_
     if rng.random() < 0.1:
         files[sp_] = files[sp_].rstrip('\n') + rng.choice(['', '\n\n\n', '  \n', '\n# end'])
+    if rng.random() < 0.15 or i % 10 == 1:
+        names_, heads_ = source_vocabulary()
+        names_ = [n_ for n_ in names_ if not n_.startswith('settings') and n_ not in ('merchants.rules', 'views.rules')]
+        if names_ and heads_:
+            pairs_ = []
+            for n_ in names_:
+                stem_ = n_.split('.')[0].lower()
+                for h_ in heads_:
+                    # a name and a header line that belong together by their words (AGENTS.md / "# ... Agent ...") come first
+                    if len(stem_) >= 4 and any(w_.lower()[:4] == stem_[:4] for w_ in h_.replace('-', ' ').split() if len(w_) >= 4):
+                        pairs_.append((n_, h_))
+            pairs_ = pairs_[:4] + [(rng.choice(names_), rng.choice(heads_))]
+            for n_, h_ in pairs_:
+                for where_ in (base, base + 'config/'):
+                    if where_ + n_ not in files and rng.random() < 0.8:
+                        files[where_ + n_] = h_ + rng.choice(['\n', '\r\n', '\n\n']) + 'my own notes below this line - keep\n'
     snap = {r: c.encode('utf-8') for r, c in files.items()}
     snap['elsewhere/'] = None
     if rng.random() < 0.05 or i % 10 == 9:
